@@ -18,6 +18,11 @@ def eval (s : Store) : Expr → Except Err Val
   | .abs a => do let x ← eval s a; pure (.int x.toInt.natAbs)
   | .mm k a b => do let x ← eval s a; let y ← eval s b; pure (k.pick x y)
 
+/-- the right-hand sides of a tuple assignment, left to right, all in the same (old) store -/
+def evalList (s : Store) : List Expr → Except Err (List Val)
+  | [] => .ok []
+  | e :: es => do let v ← eval s e; let vs ← evalList s es; pure (v :: vs)
+
 inductive Flow where | normal | broke
   deriving DecidableEq, Repr
 
@@ -46,6 +51,12 @@ def exec : Nat → Stmt → St → Except Err St
       let v ← eval st.store e
       let r ← op.pyEval cur v
       pure { st with store := st.store.set x r }
+    | .tuple _ xs es => do
+      -- all right-hand sides first (old store), then the targets are bound left to right; unpacking into a target list of
+      -- another length raises ValueError (the transpiler refuses such a line), reported as `typeError`
+      let vs ← evalList st.store es
+      if xs.length = es.length then pure { st with store := st.store.setAll xs vs } else .error .typeError
+    | .ctuple _ _ _ _ => .error .typeError       -- not a statement of the source language
     | .ifs c thn els => do
       let v ← eval st.store c
       if v.truthy then exec fuel thn st else exec fuel els st
